@@ -149,6 +149,8 @@ type genOpts struct {
 	// Force lists the JSON names of top-level fields that must be populated when
 	// they exist on the type.
 	Force []string
+	// ForceDeep lists JSON names that must be populated wherever they occur down to depth 2
+	ForceDeep []string
 	// MisAny: percentage of Any-typed slots (contained) that are filled with something other
 	// than a packed ContainedResource — the proto API permits it, the JSON form cannot express
 	// it; only totality checks use it.
@@ -231,6 +233,13 @@ func (g *resGen) fill(m protoreflect.Message, depth int) {
 		force := false
 		if depth == 0 {
 			for _, fn := range g.o.Force {
+				if fn == f.JSONName() {
+					force = true
+				}
+			}
+		}
+		if depth <= 2 {
+			for _, fn := range g.o.ForceDeep {
 				if fn == f.JSONName() {
 					force = true
 				}
